@@ -61,8 +61,8 @@ def verify_one(job):
             ex = PureExecutor(prog, dsl.REGISTRY, dsl.SPEC_SOURCES)
             fv = vcmod.FunctionVerifier(ex, fi, c, timeout_s=job['timeout_s'], solvers=job['solvers'])
         else:
-            from pyvc.heap import HeapExecutor, HeapVerifier
-            ex = HeapExecutor(prog, dsl.REGISTRY, dsl.SPEC_SOURCES)
+            from pyvc.heapvc import HeapEngine, HeapVerifier
+            ex = HeapEngine(prog, dsl.REGISTRY, dsl.SPEC_SOURCES)
             fv = HeapVerifier(ex, fi, c, timeout_s=job['timeout_s'], solvers=job['solvers'])
         obs = fv.run()
         out['paths'] = fv.paths
